@@ -101,15 +101,86 @@ Definition spec_tt_object (o : objmap) : ttype :=
       match m_kind (o_tm o) with
       | KQuoted => TStar
       | KRef => TLit
+      | KExec => TLit
       | KConst => match m_ck (o_tm o) with CkLit => TLit | CkBnode => TBnode | CkIri => match o_lang o, o_dt o with None, None => TIri | _, _ => TLit end end
       | _ => match o_lang o, o_dt o with None, None => TIri | _, _ => TLit end
       end
   end.
 
+(* ---------------------------------------------------------------- function-valued term maps *)
+(* the values a function execution yields for a row: the function applied to every combination of its arguments' values
+   (nested executions contribute all their values); a null result contributes nothing, a list result all its elements.
+   None = the function raises *)
+Fixpoint cart (l : list (ustr * list ustr)) : list (list (ustr * ustr)) :=
+  match l with
+  | [] => [[]]
+  | (n, vs) :: r => flat_map (fun v => map (cons (n, v)) (cart r)) vs
+  end.
+Section SpecFn.
+  Variable cfg : scfg.
+  Variable fe : fenv.
+  Fixpoint spec_eval (fuel : nat) (eid : ustr) (r : srow) : option (list ustr) :=
+    match fuel with
+    | O => None
+    | S f =>
+        let rows := exec_rows_of (fn_table fe) eid in
+        match rows with
+        | [] => None
+        | e0 :: _ =>
+            match fn_params fe (fe_fun e0) with
+            | None => None
+            | Some ps =>
+                let bound := flat_map (fun np =>
+                  match filter (fun e => ueqb (fe_param e) (snd np)) rows with
+                  | [] => []
+                  | l => let e := last l e0 in
+                         [(fst np, match fe_kind e with
+                                   | KConst => Some [fe_value e]
+                                   | KRef => match sval cfg r (fe_value e) with Some x => Some [x] | None => Some [] end
+                                   | KTempl => match subst (fun n => sval cfg r n) (parse_template (fe_value e)) with Some x => Some [x] | None => Some [] end
+                                   | KExec => spec_eval f (fe_value e) r
+                                   | _ => Some []
+                                   end)]
+                  end) ps in
+                if existsb (fun nv => match snd nv with None => true | _ => false end) bound then None else
+                let combos := cart (map (fun nv => (fst nv, match snd nv with Some l => l | None => [] end)) bound) in
+                fold_right (fun args acc =>
+                  match acc, fn_apply fe (fe_fun e0) args with
+                  | None, _ => None
+                  | _, FRaise => None
+                  | _, FUnmod => None
+                  | Some l, FNull => Some l
+                  | Some l, FStr s0 => if mem s0 (s_na cfg) then Some l else Some (s0 :: l)
+                  | Some l, FList xs => Some (xs ++ l)
+                  end) (Some []) combos
+            end
+        end
+    end.
+End SpecFn.
+
 Section Doc.
   Variable cfg : scfg.
+  Variable fe : fenv.
   Variable doc : document.
   Variable tables : ustr -> stable.
+
+  (* all rendered terms of a term map for a row ([] = null) *)
+  Definition spec_terms (k : mkind) (v : ustr) (tt : ttype) (dt : ustr) (r : srow) : list ustr :=
+    match k with
+    | KExec =>
+        match spec_eval cfg fe (fnml_fuel (fn_table fe)) v r with
+        | None => []
+        | Some vals =>
+            flat_map (fun x =>
+              let x1 := clean cfg x in
+              match tt with
+              | TLit => match canon_ok dt x1 with Some c => [render TLit c] | None => [] end
+              | TIri => [render TIri (strip x1)]
+              | _ => [render tt x1]
+              end) vals
+        end
+    | _ => match spec_lex cfg k v tt dt r with Some lex => [render tt lex] | None => [] end
+    end.
 
   Definition find_tm (id : ustr) : option tmapdef := find (fun t => ueqb (t_id t) id) doc.
 
@@ -129,10 +200,7 @@ Section Doc.
     | [] => [[]]
     | gms => flat_map (fun g =>
                if mkind_eqb (m_kind g) KConst && ueqb (m_value g) Tables.c_rml_default_graph then [[]]
-               else match spec_lex cfg (m_kind g) (m_value g) TIri [] r with
-                    | Some gl => [render TIri gl]
-                    | None => []
-                    end) gms
+               else spec_terms (m_kind g) (m_value g) TIri [] r) gms
     end.
 
   (* all (subject, predicate, object) triples a triples map generates for a row, and its subject terms.
@@ -147,10 +215,7 @@ Section Doc.
             | Some q => flat_map (fun r' => map quote_triple (tm_triples f q r')) (joined_rows r (t_src q) (t_sjoins t))
             | None => []
             end
-        | k => match spec_lex cfg k (m_value (t_subj t)) (spec_tt_subject (t_subj t)) [] r with
-               | Some lex => [render (spec_tt_subject (t_subj t)) lex]
-               | None => []
-               end
+        | k => spec_terms k (m_value (t_subj t)) (spec_tt_subject (t_subj t)) [] r
         end
     end
   with tm_triples (fuel : nat) (t : tmapdef) (r : srow) : list ustr :=
@@ -165,11 +230,9 @@ Section Doc.
             | [] => []
             | _ =>
             flat_map (fun p =>
-              match spec_lex cfg (m_kind p) (m_value p) TIri [] r with
-              | None => []
-              | Some pl =>
-                  flat_map (fun o => map (fun ot => s ++ [32] ++ render TIri pl ++ [32] ++ ot) (obj_terms f t o r)) (p_objs pm)
-              end) (p_preds pm)
+              flat_map (fun pt =>
+                  flat_map (fun o => map (fun ot => s ++ [32] ++ pt ++ [32] ++ ot) (obj_terms f t o r)) (p_objs pm))
+                (spec_terms (m_kind p) (m_value p) TIri [] r)) (p_preds pm)
             end) poms) (subj_terms f t r)
     end
   with obj_terms (fuel : nat) (t : tmapdef) (o : objmap) (r : srow) : list ustr :=
@@ -191,11 +254,7 @@ Section Doc.
             let tt := spec_tt_object o in
             match spec_suffix cfg o r with
             | None => []
-            | Some (suffix, dt) =>
-                match spec_lex cfg k (m_value (o_tm o)) tt dt r with
-                | Some lex => [render tt lex ++ suffix]
-                | None => []
-                end
+            | Some (suffix, dt) => map (fun x => x ++ suffix) (spec_terms k (m_value (o_tm o)) tt dt r)
             end
         end
     end.
@@ -211,17 +270,15 @@ Section Doc.
     flat_map (fun s =>
       flat_map (fun pm =>
         flat_map (fun p =>
-          match spec_lex cfg (m_kind p) (m_value p) TIri [] r with
-          | None => []
-          | Some pl =>
+          flat_map (fun pt =>
               flat_map (fun o =>
                 flat_map (fun ot =>
-                  let triple := s ++ [32] ++ render TIri pl ++ [32] ++ ot in
+                  let triple := s ++ [32] ++ pt ++ [32] ++ ot in
                   if s_nquads cfg then map (fun g => triple ++ [32] ++ g) (graph_terms t pm r) else
                   (* N-TRIPLES: the graph-less projection, present iff placed in at least one graph *)
                   match graph_terms t pm r with [] => [] | _ => [triple] end)
-                  (obj_terms spec_fuel t o r)) (p_objs pm)
-          end) (p_preds pm)) poms) (subj_terms spec_fuel t r).
+                  (obj_terms spec_fuel t o r)) (p_objs pm))
+            (spec_terms (m_kind p) (m_value p) TIri [] r)) (p_preds pm)) poms) (subj_terms spec_fuel t r).
 
   Definition spec_lines : list ustr :=
     dedup (flat_map (fun t => if asserted t then flat_map (tm_row_lines t) (tables (t_src t)) else []) doc).
